@@ -25,7 +25,7 @@ def units(tier):
             us.append(Unit(CE.SetInode, {'nlinks': nl, 'anchors': anchors}))
     # whole images: objects disjoint, inside the declared size, exact length, shared sectors iff links (independent readers)
     from contracts import fidelity as F
-    for s in ('plain-small', 'hard-links', 'many-files', 'rr-ce-history', 'joliet-many-dirs', 'deep-rr-112', 'joliet-same-name-links'):
+    for s in ['plain-small', 'hard-links', 'many-files', 'rr-ce-history', 'joliet-many-dirs', 'deep-rr-112', 'joliet-same-name-links'] + F.random_names(tier):
         us.append(Unit(F.Mastered, {'script': s}))
     for s in ('udf-many', 'udf-remove'):
         us.append(Unit(F.MasteredUDF, {'script': s}))
